@@ -39,6 +39,11 @@ def gen(ctx, uni):
          [2, rd, 2, z], [1, rd, 2, z]],
         [[1, lk, 0, z], [1, lk, 3, z], [1, rd, 3, z]],
     ]
+    # records of the trace class that have no decoder (lost-events notices, unknown 0x07.. ids) are ordinary records: they
+    # belong to the enclosing ordinary window of their thread and never to a trace-string window
+    for und in [c for c in uni.undecoded if c >> 24 == 7][:3] + [0x07ff0004]:
+        hs += [[[1, rd, 1, z], [1, und, 0, z], [1, und, 3, z], [1, rd, 2, z]],
+               [[1, ts, 1, [0, 5, 0x41, 0]], [1, und, 0, z], [1, ts, 2, z], [1, rd, 1, z], [1, und, 1, z], [1, und, 2, z], [1, rd, 2, z]]]
     return hs
 
 
